@@ -18,7 +18,7 @@ def gen_ops(r, n):
 
 def run(res, tier, seed, replay):
     res.cov["rule"] = ("real: 6 sibling async functions (free functions and a method; by-value and by-reference parameters; unit, u32, String and 136-byte [u64;17] outputs; two with the SAME output type; originals suspending 0-3 times and counting their body runs), "
-                       "random sequences (length <= 30) of fake (two different fakes per function, so that re-faking A, B, A is exercised) / await / await on a spawned thread / drop injector / new injector through async_func!/async_return! whose value expression counts its evaluations, run with a hand-written poll-counting executor in a forked child; "
+                       "random sequences (length <= 30, plus lifetimes holding 360-900 (quick) / up to 6000 (thorough) live fakes) of fake (two different fakes per function, so that re-faking A, B, A is exercised) / await / await on a spawned thread / drop injector / new injector through async_func!/async_return! whose value expression counts its evaluations, run with a hand-written poll-counting executor in a forked child; "
                        "per await: value class, number of polls, body runs, evaluations; after the sequence every function is awaited once more (original behaviour back); each result is compared with the extracted dispatch spec; "
                        "distinct = distinct (function, faked?, thread?, outcome)")
     res.cov["trusted_base"] = vlib.TRUSTED_COMMON + ["distinct async fns have distinct future types and distinct <F as Future>::poll symbols (rustc's lowering; observed, not proved)", "harness/real asyncs.rs executor and counters"]
@@ -33,6 +33,13 @@ def run(res, tier, seed, replay):
     cases = [(f"s{i}", gen_ops(r, r.randint(1, 30))) for i in range(n)]
     cases += [("k0", ["F:0", "A:0", "A:0", "A:4", "D", "A:0"]), ("k1", ["F:0", "F:0", "A:0", "D", "A:0", "N", "F:4", "A:4", "A:0"]), ("k2", [f"F:{i}" for i in range(NFN)] + [f"T:{i}" for i in range(NFN)]),
               ("k3", ["F:0", "A:0", "G:0", "A:0", "F:0", "A:0", "T:0", "D", "A:0"]), ("k4", ["G:1", "F:1", "G:1", "A:1", "F:3", "G:3", "F:3", "A:3"])]
+    # long lifetimes: hundreds of fakes alive in ONE injector (every re-fake keeps its trampoline until the drop), awaits in between
+    for li, nrep in enumerate([180, 450] if tier == "quick" else [180, 450, 1200, 3000]):
+        ops = []
+        for j in range(nrep):
+            a, b = r.randrange(NFN), r.randrange(NFN)
+            ops += [f"F:{a}", f"G:{b}"] + ([f"A:{a}", f"T:{b}", f"A:{r.randrange(NFN)}"] if j % 16 == 0 or j > nrep - 3 else [])
+        cases.append((f"long{li}", ops + ["D"] + [f"A:{i}" for i in range(NFN)]))
     lines = [f"{cid} {','.join(ops)}" for cid, ops in cases]
     shards = [lines[i::8] for i in range(8)]
     procs = [subprocess.Popen([exe, "async"], stdin=subprocess.PIPE, stdout=subprocess.PIPE, text=True) for _ in shards]
